@@ -25,6 +25,14 @@ Definition fneginf : fl := FInf true.
 Definition ulp_exp (u : Z) : Z := Z.max 0 (Z.log2 u - 52).
 Definition representable (u : Z) : Prop := 0 <= u < UOVER /\ u mod 2 ^ ulp_exp u = 0.
 
+(* a value that really is a double: finite magnitudes are representable (everything [decode] produces) *)
+Definition wf_fl (x : fl) : Prop := match x with FFin _ u => representable u | _ => True end.
+Definition wf_flb (x : fl) : bool :=
+  match x with
+  | FFin _ u => (0 <=? u) && (u <? UOVER) && (Z.land u (Z.ones (ulp_exp u)) =? 0)
+  | _ => true
+  end.
+
 (* -- order (Python's <, <=, == on floats; every comparison with NaN is false) *)
 Definition ford (x : fl) : Z :=
   match x with
